@@ -8,6 +8,7 @@ import (
 	"golang.org/x/tools/go/cfg"
 )
 
+// isLitCall: call is the json.Unmarshal of the literal, reached through the call sites that bind its parameters.
 func (env *c18FlowEnv) isLitCall(call *ast.CallExpr) bool {
 	if call != env.lit.call {
 		return false
@@ -25,210 +26,216 @@ func (env *c18FlowEnv) isLitCall(call *ast.CallExpr) bool {
 	return true
 }
 
-// flow propagates the facts through fd starting from in; returns=false when fd has no normal exit.
-func (env *c18FlowEnv) flow(fd *ast.FuncDecl, in c18Flow) (c18Flow, bool) {
-	info := env.c.info
-	g := newCFG(info, fd.Body)
-	loops := env.loopsOf(fd, g)
-	preds := map[*cfg.Block][]*cfg.Block{}
-	for _, b := range g.Blocks {
-		if !b.Live {
-			continue
-		}
-		for _, s := range b.Succs {
-			preds[s] = append(preds[s], b)
+// c18FlowRun is the fixpoint of one function.
+type c18FlowRun struct {
+	env    *c18FlowEnv
+	fd     *ast.FuncDecl
+	loops  []*c18Loop
+	preds  map[*cfg.Block][]*cfg.Block
+	sortIn map[*cfg.Block]*ast.CallExpr
+	retVal map[*ast.CallExpr]c18UF // facts of the slice a package function returned at this call
+}
+
+func (fr *c18FlowRun) onlyHead(l *c18Loop) bool {
+	for _, p := range fr.preds[l.done] {
+		if p != l.head {
+			return false
 		}
 	}
-	onlyHead := func(l *c18Loop) bool {
-		for _, p := range preds[l.done] {
-			if p != l.head {
-				return false
-			}
+	return true
+}
+
+func (fr *c18FlowRun) edge(p, b *cfg.Block, st c18Flow) c18Flow {
+	for _, l := range fr.loops {
+		if b == l.head && !l.in[p] {
+			st.e = true // no iteration has been left unsorted yet
 		}
-		return true
-	}
-	edge := func(p, b *cfg.Block, st c18Flow) c18Flow {
-		for _, l := range loops {
-			if b == l.head && !l.in[p] {
-				st.e = true // no iteration has been left unsorted yet
-			}
-			if p == l.head {
-				switch b {
-				case l.body:
-					st.e = false
-				case l.done:
-					if st.e && onlyHead(l) {
-						st.s = true
+		if p == l.head {
+			switch b {
+			case l.body:
+				st.e = false
+			case l.done:
+				if st.e && fr.onlyHead(l) {
+					g := st.grpOf(l.over)
+					for k, uf := range st.f {
+						if k != l.over && st.grpOf(k) == g {
+							uf.s = true
+							st = st.with(k, uf)
+						}
 					}
-					st.e = false
+					uf := st.f[l.over]
+					uf.s = true
+					st = st.with(l.over, uf)
+				}
+				st.e = false
+			}
+		}
+	}
+	return st
+}
+
+// value gives the facts of the slice an expression evaluates to: a tracked variable, the result of a package
+// function analysed at this call, or a conversion of those. Anything else has no facts.
+func (fr *c18FlowRun) value(e ast.Expr, st c18Flow) c18UF {
+	e = ast.Unparen(e)
+	if v := fr.env.slot(fr.fd, e); v != nil {
+		uf := st.f[v]
+		uf.grp = st.grpOf(v) // the destination shares the entries of v from now on
+		return uf
+	}
+	if call, ok := e.(*ast.CallExpr); ok {
+		if uf, ok := fr.retVal[call]; ok {
+			uf.grp = nil // locals of the callee are out of scope
+			return uf
+		}
+		if tv, ok := fr.env.c.info.Types[call.Fun]; ok && tv.IsType() && len(call.Args) == 1 {
+			return fr.value(call.Args[0], st)
+		}
+	}
+	return c18UF{}
+}
+
+// store handles `v = e` / `v := e` / `var v = e` for a tracked slice variable v.
+func (fr *c18FlowRun) store(n ast.Node, lhs ast.Expr, rhs ast.Expr, st c18Flow) c18Flow {
+	env := fr.env
+	id, ok := ast.Unparen(lhs).(*ast.Ident)
+	if !ok {
+		return st
+	}
+	v := env.slot(fr.fd, id)
+	o := objOf(env.c.info, id)
+	if v == nil || v != o {
+		return st // not tracked, or a single-assignment alias of another tracked slice
+	}
+	if v == env.c.table {
+		env.writes[n] = true
+		env.reach = true
+	}
+	uf := fr.value(rhs, st) // facts first (the right-hand side may mention v), sharing after v left its group
+	st = st.leave(v)
+	if w := fr.env.slot(fr.fd, rhs); w != nil && w != v {
+		uf.grp = st.grpOf(w)
+	} else if uf.grp == v {
+		uf.grp = nil
+	}
+	return st.with(v, uf)
+}
+
+func (fr *c18FlowRun) transfer(b *cfg.Block, st c18Flow) c18Flow {
+	for _, n := range b.Nodes {
+		var calls []*ast.CallExpr
+		inspectNoLit(n, func(m ast.Node) bool {
+			if c, ok := m.(*ast.CallExpr); ok {
+				calls = append(calls, c)
+			}
+			return true
+		})
+		sort.SliceStable(calls, func(i, j int) bool { return calls[i].End() < calls[j].End() })
+		for _, call := range calls {
+			st = fr.call(b, call, st)
+		}
+		switch s := n.(type) {
+		case *ast.AssignStmt:
+			if len(s.Lhs) == len(s.Rhs) {
+				for i := range s.Lhs {
+					st = fr.store(s, s.Lhs[i], s.Rhs[i], st)
 				}
 			}
+		case *ast.ValueSpec:
+			if len(s.Names) == len(s.Values) {
+				for i := range s.Names {
+					st = fr.store(s, s.Names[i], s.Values[i], st)
+				}
+			}
+		}
+	}
+	return st
+}
+
+// call applies the effect of one call.
+func (fr *c18FlowRun) call(b *cfg.Block, call *ast.CallExpr, st c18Flow) c18Flow {
+	env, info, fd := fr.env, fr.env.c.info, fr.fd
+	if isPkgFunc(callee(info, call), "encoding/json", "Unmarshal") && len(call.Args) == 2 {
+		var target types.Object
+		if ue, ok := ast.Unparen(call.Args[1]).(*ast.UnaryExpr); ok {
+			target = env.slot(fd, ue.X)
+		} else if env.isLitCall(call) && len(env.lit.via) > 0 {
+			target = env.addrOf[env.lit.via[0]]
+		}
+		if target != nil {
+			isLit := env.isLitCall(call)
+			env.reach = env.reach || isLit
+			st = st.leave(target).with(target, c18UF{u: isLit})
 		}
 		return st
 	}
-	sortIn := map[*cfg.Block]*ast.CallExpr{}
-	transfer := func(b *cfg.Block, st c18Flow) c18Flow {
-		for _, n := range b.Nodes {
-			var calls []*ast.CallExpr
-			inspectNoLit(n, func(m ast.Node) bool {
-				if c, ok := m.(*ast.CallExpr); ok {
-					calls = append(calls, c)
-				}
-				return true
-			})
-			sort.SliceStable(calls, func(i, j int) bool { return calls[i].End() < calls[j].End() })
-			for _, call := range calls {
-				if env.isLitCall(call) {
-					env.reach = true
-					st.u, st.s = true, false
-					continue
-				}
-				if t := c18SortTarget(info, call); t != nil {
-					if env.isVals(fd, loops, t, 3) {
-						st.e = true
-						sortIn[b] = call
-					}
-					continue
-				}
-				fn := callee(info, call)
-				fd2 := env.c.funcs[fn]
-				if fn == nil || fd2 == nil || len(env.active) >= 5 {
-					continue
-				}
-				rec := false
-				for _, a := range env.active {
-					rec = rec || a == fd2
-				}
-				if rec {
-					continue
-				}
-				tableP, entryP, valsP := map[types.Object]bool{}, map[types.Object]bool{}, map[types.Object]bool{}
-				bindRole := func(o types.Object, a ast.Expr) {
-					if o == nil {
-						return
-					}
-					if _, isSlice := o.Type().Underlying().(*types.Slice); isSlice && env.isTable(fd, a) {
-						tableP[o] = true
-					} else if env.isEntry(fd, loops, a, 3) {
-						entryP[o] = true
-					} else if env.isVals(fd, loops, a, 3) {
-						valsP[o] = true
-					}
-				}
-				if sel, ok := ast.Unparen(call.Fun).(*ast.SelectorExpr); ok && fd2.Recv != nil && len(fd2.Recv.List) == 1 && len(fd2.Recv.List[0].Names) == 1 {
-					if s := info.Selections[sel]; s != nil && s.Kind() == types.MethodVal {
-						bindRole(info.Defs[fd2.Recv.List[0].Names[0]], sel.X)
-					}
-				}
-				pi := 0
-				for _, fld := range fd2.Type.Params.List {
-					if len(fld.Names) == 0 {
-						pi++
-					}
-					for _, nm := range fld.Names {
-						if pi < len(call.Args) {
-							bindRole(info.Defs[nm], call.Args[pi])
-						}
-						pi++
-					}
-				}
-				saveT, saveE, saveV := env.tableP, env.entryP, env.valsP
-				env.tableP, env.entryP, env.valsP = tableP, entryP, valsP
-				env.stack = append(env.stack, call)
-				env.active = append(env.active, fd2)
-				out, ret := env.flow(fd2, st)
-				env.active = env.active[:len(env.active)-1]
-				env.stack = env.stack[:len(env.stack)-1]
-				env.tableP, env.entryP, env.valsP = saveT, saveE, saveV
-				if ret {
-					if out.e && !st.e {
-						sortIn[b] = call
-					}
-					out.e = out.e || st.e
-					st = out
-				}
-			}
+	if t := c18SortTarget(info, call); t != nil {
+		if env.isVals(fd, fr.loops, t, 3) {
+			st.e = true
+			fr.sortIn[b] = call
 		}
 		return st
 	}
-	inS, outS := map[*cfg.Block]c18Flow{}, map[*cfg.Block]c18Flow{}
-	have := map[*cfg.Block]bool{}
-	entry := g.Blocks[0]
-	for round := 0; round < 64; round++ {
-		changed := false
-		for _, b := range g.Blocks {
-			if !b.Live {
-				continue
-			}
-			var st c18Flow
-			got := false
-			if b == entry {
-				st, got = in, true
-			}
-			for _, p := range preds[b] {
-				if !have[p] {
-					continue
-				}
-				es := edge(p, b, outS[p])
-				if !got {
-					st, got = es, true
-				} else {
-					st = st.meet(es)
-				}
-			}
-			if !got {
-				continue
-			}
-			o := transfer(b, st)
-			if !have[b] || inS[b] != st || outS[b] != o {
-				have[b], inS[b], outS[b] = true, st, o
-				changed = true
-			}
-		}
-		if !changed {
-			break
+	fn := callee(info, call)
+	fd2 := env.c.funcs[fn]
+	if fn == nil || fd2 == nil || len(env.active) >= 5 {
+		return st
+	}
+	for _, a := range env.active {
+		if a == fd2 {
+			return st
 		}
 	}
-	for _, l := range loops {
-		d := c18LoopDiag{pos: l.stmt.Pos(), everyIter: have[l.head] && inS[l.head].e, onlyHead: onlyHead(l), loaded: have[l.head] && inS[l.head].u}
-		if rs, ok := l.stmt.(*ast.RangeStmt); ok && rs.Value != nil {
-			d.elem = src(env.r.P.Fset, rs.Value)
-		} else if l.key != nil {
-			d.elem = env.c.table.Name() + "[" + l.key.Name() + "]"
+	tableP, entryP, valsP := map[types.Object]types.Object{}, map[types.Object]bool{}, map[types.Object]bool{}
+	bindRole := func(o types.Object, a ast.Expr) {
+		if o == nil {
+			return
 		}
-		for b := range l.in {
-			if c := sortIn[b]; c != nil {
-				d.hasSort, d.sortText, d.sortPos = true, src(env.r.P.Fset, c), c.Pos()
+		if ue, ok := ast.Unparen(a).(*ast.UnaryExpr); ok {
+			if v := env.slot(fd, ue.X); v != nil {
+				env.addrOf[call] = v
 			}
 		}
-		if st, ok := l.stmt.(*ast.RangeStmt); ok && l.val != nil {
-			ast.Inspect(st.Body, func(n ast.Node) bool {
-				if as, ok := n.(*ast.AssignStmt); ok {
-					for _, lh := range as.Lhs {
-						if fieldOf(info, lh) == env.c.valsF && rootObj(info, lh) == l.val {
-							d.copyAsg = true
-						}
-					}
-				}
-				return true
-			})
-		}
-		env.loops = append(env.loops, d)
-	}
-	var res c18Flow
-	got := false
-	for _, b := range g.Blocks {
-		if !b.Live || !have[b] || len(b.Succs) != 0 || c18IsPanicExit(info, b) {
-			continue
-		}
-		if !got {
-			res, got = outS[b], true
-		} else {
-			res = res.meet(outS[b])
+		if _, isSlice := o.Type().Underlying().(*types.Slice); isSlice && env.slot(fd, a) != nil {
+			tableP[o] = env.slot(fd, a)
+		} else if env.isEntry(fd, fr.loops, a, 3) {
+			entryP[o] = true
+		} else if env.isVals(fd, fr.loops, a, 3) {
+			valsP[o] = true
 		}
 	}
-	if !got {
-		return in, false
+	if sel, ok := ast.Unparen(call.Fun).(*ast.SelectorExpr); ok && fd2.Recv != nil && len(fd2.Recv.List) == 1 && len(fd2.Recv.List[0].Names) == 1 {
+		if s := info.Selections[sel]; s != nil && s.Kind() == types.MethodVal {
+			bindRole(info.Defs[fd2.Recv.List[0].Names[0]], sel.X)
+		}
 	}
-	return res, true
+	pi := 0
+	for _, fld := range fd2.Type.Params.List {
+		if len(fld.Names) == 0 {
+			pi++
+		}
+		for _, nm := range fld.Names {
+			if pi < len(call.Args) {
+				bindRole(info.Defs[nm], call.Args[pi])
+			}
+			pi++
+		}
+	}
+	saveT, saveE, saveV := env.tableP, env.entryP, env.valsP
+	env.tableP, env.entryP, env.valsP = tableP, entryP, valsP
+	env.stack = append(env.stack, call)
+	env.active = append(env.active, fd2)
+	out, rv, ret := env.flow(fd2, st)
+	env.active = env.active[:len(env.active)-1]
+	env.stack = env.stack[:len(env.stack)-1]
+	env.tableP, env.entryP, env.valsP = saveT, saveE, saveV
+	if ret {
+		if out.e && !st.e {
+			fr.sortIn[b] = call
+		}
+		out.e = out.e || st.e
+		st = out
+		fr.retVal[call] = rv
+	}
+	return st
 }
